@@ -1,6 +1,6 @@
 SPECIFICATION Spec
 CONSTANTS
-  MaxTotal = 4
+  MaxTotal = 3
   MaxPerKind = 3
-INVARIANTS SetRules StreamOrder Counts Closed
+INVARIANTS SetRules StreamOrder Counts Closed EmitAgrees
 CHECK_DEADLOCK FALSE
